@@ -50,6 +50,19 @@ LResolve(fsys, p) ==
        IF d = NoPath THEN NoPath
        ELSE IF Exists(fsys, Append(d, Base(p))) THEN Append(d, Base(p)) ELSE NoPath
 
+(* where open(O_CREAT) on p creates the file: p itself below its resolved   *)
+(* parent, or - if that name is a dangling symlink - the link's target      *)
+RECURSIVE FinalTarget(_, _, _)
+FinalTarget(fsys, p, fuel) ==
+  IF p = << >> THEN NoPath
+  ELSE LET d == ResolveParent(fsys, p) IN
+       IF d = NoPath \/ ~Exists(fsys, d) \/ Node(fsys, d).kind # "dir" THEN NoPath
+       ELSE LET q == Append(d, Base(p)) IN
+            IF ~Exists(fsys, q) THEN q
+            ELSE IF Node(fsys, q).kind = "link"
+                 THEN IF fuel = 0 THEN NoPath ELSE FinalTarget(fsys, Node(fsys, q).target, fuel - 1)
+                 ELSE q
+
 IsDirAt(fsys, p) == p # NoPath /\ Exists(fsys, p) /\ Node(fsys, p).kind = "dir"
 IsFileAt(fsys, p) == p # NoPath /\ Exists(fsys, p) /\ Node(fsys, p).kind = "file"
 
@@ -279,7 +292,8 @@ HandleReadCritical(cs, fsys, req) ==
   LET ro == RoView(cs, fsys) IN
   IF ~cs.ro.open THEN { Outcome(cs, fsys, RNone, TRUE) }
   ELSE IF ro.undef \/ req.hugeArgs
-       THEN { Outcome(cs, fsys, AnyResp, FALSE), Outcome(cs, fsys, AnyResp, TRUE), Outcome(cs, fsys, RNone, TRUE) }
+       THEN { Outcome(cs, fsys, AnyResp, FALSE), Outcome(cs, fsys, AnyResp, TRUE), Outcome(cs, fsys, RNone, TRUE),
+              Outcome(cs, fsys, RNone, FALSE) }
   ELSE LET n == Avail(ro.size, req.off, req.limit)
            want == PInt(req.limit)
        IN IF n = want
@@ -302,7 +316,8 @@ HandleReadCD(cs, fsys, req) ==
   LET ro == RoView(cs, fsys) IN
   IF ~cs.ro.open \/ cs.sect <= 0 THEN { Outcome(cs, fsys, RNone, TRUE) }
   ELSE IF ro.undef \/ req.hugeArgs
-       THEN { Outcome(cs, fsys, AnyResp, FALSE), Outcome(cs, fsys, AnyResp, TRUE), Outcome(cs, fsys, RNone, TRUE) }
+       THEN { Outcome(cs, fsys, AnyResp, FALSE), Outcome(cs, fsys, AnyResp, TRUE), Outcome(cs, fsys, RNone, TRUE),
+              Outcome(cs, fsys, RNone, FALSE) }
   ELSE LET runs == CDRuns(ro.cid, ro.size, cs.sect, req.start, req.count)
            full == RunsLen(runs) = req.count * CDUserBytes
        IN IF full THEN { Outcome(cs, fsys, RawFull(runs), FALSE) }
@@ -339,11 +354,11 @@ HandleCreate(cs, fsys, req, aw) ==
                ELSE LET n == Node(fsys, t)
                         n2 == [n EXCEPT !.size = PZero, !.cid = "", !.vcid = "", !.vsize = PZero, !.marks = << >>]
                     IN { Outcome([cs0 EXCEPT !.wo = [open |-> TRUE, path |-> t]], (fsys \ {n}) \cup {n2}, Res4(0), FALSE) }
-          ELSE LET d == ResolveParent(fsys, p) IN
-               IF p = << >> \/ ~IsDirAt(fsys, d) \/ Exists(fsys, Append(d, Base(p)))   \* dangling link: unspecified, refused here
+          ELSE LET q == FinalTarget(fsys, p, 4) IN      \* O_CREAT follows a dangling link to its target
+               IF q = NoPath
                THEN { Outcome(cs0, fsys, Res4(-1), FALSE) }
-               ELSE { Outcome(Staled([cs0 EXCEPT !.wo = [open |-> TRUE, path |-> Append(d, Base(p))]], d),
-                              fsys \cup {NewFile(Append(d, Base(p)))}, Res4(0), FALSE) }
+               ELSE { Outcome(Staled([cs0 EXCEPT !.wo = [open |-> TRUE, path |-> q]], Parent(q)),
+                              fsys \cup {NewFile(q)}, Res4(0), FALSE) }
 
 (***************************************************************************)
 (* WRITE_FILE (HandleWriteFile): the payload is always consumed; appended   *)
